@@ -325,18 +325,20 @@ class XsdWildcard(XsdComponent):
             self.namespace.update(other.namespace)
             return
 
-        if w1.target_namespace in w2.namespace and '' in w2.namespace:
+        excluded = {'', w1.target_namespace} - w2.namespace
+        if not excluded:
             self.namespace.clear()
             self.namespace.add('##any')
-        elif '' not in w2.namespace and w1.target_namespace == w2.target_namespace:
+        elif excluded == {'', w1.target_namespace} and \
+                w1.target_namespace == w2.target_namespace:
             self.namespace.clear()
             self.namespace.add('##other')
-        elif self.xsd_version == '1.0':
+        elif self.xsd_version == '1.0' and '' not in excluded:
             msg = _("not expressible wildcard namespace union: {0!r} V {1!r}:")
             raise XMLSchemaValueError(msg.format(other.namespace, self.namespace))
         else:
             self.namespace.clear()
-            self.not_namespace = {'', w1.target_namespace}
+            self.not_namespace = excluded
 
     def intersection(self, other: Union['XsdAnyElement', 'XsdAnyAttribute']) -> None:
         """Update an XSD wildcard with the intersection of itself and another XSD wildcard."""
